@@ -86,12 +86,12 @@ Qed.
 Lemma lru_step_ok l cl : lru_inv l ->
   let '(l', o) := lru_step l cl in step_ok admit_full l cl o l'.
 Proof.
-  unfold lru_inv. intros H. destruct cl as [k c|k c|k|n|]; cbn [lru_step step_ok].
+  unfold lru_inv. intros H. destruct cl as [k c|k c|k|n|]; cbn [lru_step step_ok step_okG access_keep].
   - unfold ll_move_to_front. destruct (lookup k l) eqn:E; [|apply Permutation_refl].
     apply perm_rm_cons; assumption.
   - unfold admit_full, ll_push_front. apply Permutation_refl.
   - apply Permutation_refl.
-  - destruct (ll_evict n l) as [[l' vs] f] eqn:E. cbn [step_ok]. eapply ll_evict_ok; eauto.
+  - destruct (ll_evict n l) as [[l' vs] f] eqn:E. cbn [step_ok step_okG access_keep]. eapply ll_evict_ok; eauto.
   - reflexivity.
 Qed.
 
@@ -142,13 +142,13 @@ Qed.
 Lemma fifo_step_ok l cl : lru_inv l ->
   let '(l', o) := fifo_step l cl in step_ok admit_keep_old l cl o l'.
 Proof.
-  unfold lru_inv. intros H. destruct cl as [k c|k c|k|n|]; cbn [fifo_step step_ok].
+  unfold lru_inv. intros H. destruct cl as [k c|k c|k|n|]; cbn [fifo_step step_ok step_okG access_keep].
   - apply Permutation_refl.
   - unfold admit_keep_old. destruct (lookup k l) eqn:E; [apply Permutation_refl|].
     unfold ll_push_front. rewrite rm_id; [apply Permutation_refl|].
     apply lookup_None. exact E.
   - apply Permutation_refl.
-  - destruct (ll_evict n l) as [[l' vs] f] eqn:E. cbn [step_ok]. eapply ll_evict_ok; eauto.
+  - destruct (ll_evict n l) as [[l' vs] f] eqn:E. cbn [step_ok step_okG access_keep]. eapply ll_evict_ok; eauto.
   - reflexivity.
 Qed.
 
